@@ -10,7 +10,8 @@ EXPLANATION = ('Whole-server level, both servers, three transport modes (polling
                'a regular-language monitor reads the application handler log; exception containment is checked differentially '
                'against the same history without the exception.')
 STUBS = SIM_STUBS
-OUTSIDE = SIM_OUTSIDE + ['histories longer than 3 stimuli after the open', 'more than 2 sessions']
+OUTSIDE = SIM_OUTSIDE + ['histories longer than 3 stimuli after the open', 'more than 2 sessions', 'races of more than two end causes; more than 3 '
+                         'scheduling decisions chosen by selectors (racing_ends)']
 NOT_CONSTRAINED = ['which of two end causes injected at the same virtual instant is named', 'protocol errors may be reported as '
                    '"server disconnect" or "transport error"', 'packets that follow a CLOSE inside the same POST body']
 ASSUMPTIONS = ['cooperative scheduling only']
